@@ -175,7 +175,13 @@ impl<M: MemBuilder> AnyVecRaw<M> {
             );
 
             // 2. write value
+            // `move_into` may run user code (LazyClone clones), which may panic.
+            // Hide the shifted elements meanwhile, otherwise `element` slot duplicate
+            // next element on unwind.
+            let len = self.len;
+            self.len = index;
             value.move_into::<V::Type>(element as *mut u8, size_of::<V::Type>());
+            self.len = len;
         } else {
             let element_size = self.element_layout().size();
             let element = self.mem.as_mut_ptr().add(element_size * index);
@@ -188,7 +194,11 @@ impl<M: MemBuilder> AnyVecRaw<M> {
             );
 
             // 2. write value
+            // Same as above - hide shifted elements from possible unwind.
+            let len = self.len;
+            self.len = index;
             value.move_into::<V::Type>(element, element_size);
+            self.len = len;
         }
 
         self.len += 1;
